@@ -461,7 +461,7 @@ Proof.
   unfold allz. apply Forall_forall. intros q Hq. apply in_map_iff in Hq.
   destruct Hq as (i & <- & Hi). apply in_seq in Hi.
   assert (Hlen : (Z.of_nat i + 2 < zlen g)%Z) by (unfold zlen; lia).
-  unfold cubic_tmp, cubic_vdiff. rewrite !qn_vq, !qn_gq.
+  unfold cubic_tmp, cubic_vdiff. rewrite !qn_gq. change (gq vs) with (vq vs).
   replace (Z.of_nat (i + 1 + 1)) with (Z.of_nat i + 2)%Z by lia.
   replace (Z.of_nat (i + 2)) with (Z.of_nat i + 2)%Z by lia.
   replace (Z.of_nat (i + 1)) with (Z.of_nat i + 1)%Z by lia.
